@@ -116,9 +116,9 @@ def _sweep(root):
     cache = os.path.join(root, 'extcache')
     if os.path.isdir(cache):
         entries = sorted((os.path.getmtime(os.path.join(cache, n)), n) for n in os.listdir(cache))
-        for _, n in entries[:-4]:
-            shutil.rmtree(os.path.join(cache, n), ignore_errors=True)
-    del now
+        for mt, n in entries[:-6]:
+            if now - mt > 1800:   # never under a concurrent invocation that is copying from it
+                shutil.rmtree(os.path.join(cache, n), ignore_errors=True)
 
 
 def build_scratch():
@@ -287,6 +287,41 @@ def scan_lean_tree():
             if 'PyndlModel' in root and re.search(r'\bpartial\s+def\b', body):
                 problems.append('%s: partial def inside the model' % os.path.relpath(p, LEAN_DIR))
     return problems
+
+
+class lean_lock:
+    """
+    Exclusive lock around everything that reads or writes lean/ (Generated.lean, `lake build`, the
+    axiom audit, leanchecker): several ./check invocations may run at the same time, possibly
+    against different source trees, and must not see each other's generated constants or
+    half-written .olean files.
+    """
+
+    def __enter__(self):
+        import fcntl
+        os.makedirs(SCRATCH_ROOT, exist_ok=True)
+        self.f = open(os.path.join(SCRATCH_ROOT, 'lean.lock'), 'w')
+        fcntl.flock(self.f, fcntl.LOCK_EX)
+        return self
+
+    def __exit__(self, *a):
+        import fcntl
+        fcntl.flock(self.f, fcntl.LOCK_UN)
+        self.f.close()
+        return False
+
+
+def private_driver():
+    """copy the driver binary built under the lock to a directory of this run, so that a later
+    `lake build` by another invocation cannot swap the model under a running campaign"""
+    global DRIVER
+    os.makedirs(SCRATCH_ROOT, exist_ok=True)
+    d = tempfile.mkdtemp(prefix='run-%d-drv-' % os.getpid(), dir=SCRATCH_ROOT)
+    _live_dirs.append(d)
+    dst = os.path.join(d, 'pyndl-driver')
+    shutil.copy2(DRIVER, dst)
+    DRIVER = dst
+    return dst
 
 
 class Driver:
